@@ -186,7 +186,7 @@ impl Prop for C15 {
             .to_string()
     }
     fn n_cases(&self, tier: Tier) -> u64 {
-        tier.pick(2000, 20000)
+        tier.pick(10000, 100000)
     }
     fn timeout_s(&self, tier: Tier) -> u64 {
         tier.pick(60, 120)
